@@ -113,7 +113,7 @@ def _json_safe(v):
         return {"__repr__": repr(v)[:80]}
 
 
-async def _serve_one(handler, d):
+async def _serve_one(handler, d, session_id=None):
     """One message through the real handler; observation of the answer and of the session."""
     from chuk_mcp.protocol.messages.json_rpc_message import parse_message
 
@@ -123,7 +123,7 @@ async def _serve_one(handler, d):
     except Exception as ex:
         return {"kind": "unparsable", "exc": type(ex).__name__}, None
     try:
-        resp, sid = await handler.handle_message(msg)
+        resp, sid = await (handler.handle_message(msg) if session_id is None else handler.handle_message(msg, session_id))
     except Exception as ex:
         return {"kind": "raised", "exc": type(ex).__name__}, None
     out = None
@@ -145,6 +145,7 @@ async def _serve_one(handler, d):
                 obs["has_version"] = False
                 obs["answered"] = None
     obs["has_session"] = False
+    obs["sid"] = sid
     if sid is not None:
         s = handler.session_manager.get_session(sid)
         if s is not None:
@@ -161,8 +162,53 @@ def run_server(cases):
         for c in cases:
             handler = _new_handler()
             o, _ = await _serve_one(handler, init_request_dict(c["req"]))
+            o.pop("sid", None)
             o["sessions"] = handler.session_manager.get_session_count()
             out.append(o)
+        return out
+
+    return asyncio.run(main())
+
+
+def run_server_seq(cases):
+    """case = {"steps": [{"req": .., "carry": None | "prev" | "first" | "bogus"}, ..]}: the initialize
+    requests go to ONE handler in order; `carry` says which session id accompanies the message (as a
+    transport does for a peer that already holds one).  Between two steps a ping travels on the carried
+    session.  Per step: the answer, and what the store holds under the session id returned for that
+    step, read right after the step."""
+    import asyncio
+
+    async def main():
+        out = []
+        for c in cases:
+            handler = _new_handler()
+            sids, steps = [], []
+            for i, st in enumerate(c["steps"]):
+                carry = st.get("carry")
+                sid_in = None
+                if carry == "prev" and sids:
+                    sid_in = sids[-1]
+                elif carry == "first" and sids:
+                    sid_in = sids[0]
+                elif carry == "bogus":
+                    sid_in = "0" * 32
+                if sid_in is not None:
+                    try:
+                        await handler.handle_message(
+                            __import__("chuk_mcp.protocol.messages.json_rpc_message", fromlist=["parse_message"]).parse_message(
+                                {"jsonrpc": "2.0", "id": f"ping-{i}", "method": "ping"}), sid_in)
+                    except Exception:
+                        pass
+                before = handler.session_manager.get_session_count()
+                o, _ = await _serve_one(handler, init_request_dict(st["req"], msg_id=f"init-{i}"), session_id=sid_in)
+                o["carried"] = carry if sid_in is not None else None
+                o["new_sessions"] = handler.session_manager.get_session_count() - before
+                sid = o.pop("sid", None)
+                o["reused_carried"] = sid is not None and sid == sid_in
+                if sid is not None:
+                    sids.append(sid)
+                steps.append(o)
+            out.append({"steps": steps})
         return out
 
     return asyncio.run(main())
@@ -189,9 +235,14 @@ def _answer_message(ans, msg_id):
     raise ValueError(k)
 
 
+FILLER = {"jsonrpc": "2.0", "method": "notifications/verif-filler"}  # somebody else's message occupying the write buffer
+
+
 def _wire(m):
     """Written message -> the transcript vocabulary of the model."""
     d = m.model_dump(exclude_none=True) if hasattr(m, "model_dump") else m
+    if isinstance(d, dict) and d.get("method") == FILLER["method"]:
+        return None, d
     if isinstance(d, dict) and d.get("method") == "initialize" and "id" in d:
         pv = (d.get("params") or {}).get("protocolVersion")
         return {"w": "initialize", "v": pv}, d
@@ -236,8 +287,13 @@ async def _client_case(loop, c):
     )
 
     loop.tie = c.get("tie", "events")
+    # write side: unbounded by default; `wbuf` = buffer size of the write stream (0 = rendezvous),
+    # `filler` = a foreign message occupies the buffer right after the answer, `take` = ticks after
+    # the answer at which the peer reads the write stream again (None = never)
+    backpressure = "wbuf" in c
+    wbuf = c.get("wbuf")
     in_send, in_recv = anyio.create_memory_object_stream(math.inf)
-    out_send, out_recv = anyio.create_memory_object_stream(math.inf)
+    out_send, out_recv = anyio.create_memory_object_stream(math.inf if wbuf is None else wbuf)
     trace, raw = [], []
     obs = {}
 
@@ -248,7 +304,8 @@ async def _client_case(loop, c):
             except Exception:
                 break
             w, d = _wire(m)
-            trace.append(w)
+            if w is not None:
+                trace.append(w)
             raw.append(d)
 
     def fire():
@@ -257,14 +314,23 @@ async def _client_case(loop, c):
         if rid is None:
             obs.setdefault("harness", []).append("no initialize request on the wire when the answer was due")
             return
+        if c["ans"]["k"] == "silence":
+            return
         try:
             in_send.send_nowait(_answer_message(c["ans"], rid))
             trace.append({"w": "answered"})
         except Exception as ex:
             obs.setdefault("harness", []).append("answer not built: " + repr(ex)[:120])
+        if c.get("filler"):
+            try:
+                out_send.send_nowait(FILLER)
+            except Exception as ex:
+                obs.setdefault("harness", []).append("filler not placed: " + repr(ex)[:120])
 
-    if c["ans"]["k"] != "silence":
+    if c["ans"]["k"] != "silence" or backpressure:
         loop.at(loop.ticks + c.get("at", 10), fire)
+    if backpressure and c.get("take") is not None:
+        loop.at(loop.ticks + c.get("at", 10) + c["take"], drain)
     kwargs = {}
     if c.get("sup") is not None:
         kwargs["supported_versions"] = list(c["sup"])
@@ -274,18 +340,24 @@ async def _client_case(loop, c):
         kwargs["timeout"] = c["D"] * vloop.TICK
     client = _tracked_client() if c.get("track") else None
     t0 = loop.ticks
-    try:
-        if c.get("track"):
-            res = await send_initialize_with_client_tracking(in_recv, out_send, client=client, **kwargs)
-        else:
-            res = await send_initialize(in_recv, out_send, **kwargs)
-        obs["outcome"] = "ok"
-        obs["v"] = _json_safe(getattr(res, "protocolVersion", None))
-        obs["type"] = type(res).__name__
-    except BaseException as ex:  # noqa  (anyio cancellation cannot occur here: no outer scope)
-        if not isinstance(ex, Exception):
-            raise
-        obs.update(_classify(ex))
+    # a call that is still pending long after everything scripted has happened is reported as
+    # "blocked" (only possible with a write side that does not take what the client sends)
+    horizon = (c.get("at", 10) + 4 * (c.get("D") or 61440) + 64) * vloop.TICK if backpressure else math.inf
+    with anyio.move_on_after(horizon):
+        try:
+            if c.get("track"):
+                res = await send_initialize_with_client_tracking(in_recv, out_send, client=client, **kwargs)
+            else:
+                res = await send_initialize(in_recv, out_send, **kwargs)
+            obs["outcome"] = "ok"
+            obs["v"] = _json_safe(getattr(res, "protocolVersion", None))
+            obs["type"] = type(res).__name__
+        except BaseException as ex:  # noqa
+            if not isinstance(ex, Exception):
+                raise  # the horizon's cancellation
+            obs.update(_classify(ex))
+    if "outcome" not in obs:
+        obs["outcome"] = "blocked"
     obs["t"] = loop.ticks - t0
     drain()
     obs["trace"] = trace
